@@ -246,6 +246,16 @@ func (pr *ProtoArray) Search(anchor NodeRef, parentRoot *Root, slot *Slot) (nonC
 	}
 	anchorIndex := pr.indices[anchor]
 	headIndex := pr.indices[head]
+	// no options = search for heads: collect the blocks that some other block builds on.
+	var hasChildBlock map[Root]struct{}
+	if parentRoot == nil && slot == nil {
+		hasChildBlock = make(map[Root]struct{}, len(pr.nodes))
+		for i := range pr.nodes {
+			if n := &pr.nodes[i]; n.Ref.Root != n.ParentRoot {
+				hasChildBlock[n.ParentRoot] = struct{}{}
+			}
+		}
+	}
 	for i := 0; i < len(pr.nodes); i++ {
 		node := &pr.nodes[i]
 		// only search for nodes that contain blocks
@@ -254,13 +264,9 @@ func (pr *ProtoArray) Search(anchor NodeRef, parentRoot *Root, slot *Slot) (nonC
 		}
 		// no options = search for heads.
 		if parentRoot == nil && slot == nil {
-			// if it has no child, it's a head.
-			if node.BestChild != NONE {
-				// if it has only empty slots as children, it's a head.
-				desc := &pr.nodes[node.BestDescendant]
-				if desc.Ref.Root != node.Ref.Root {
-					continue
-				}
+			// if it has no child, or only empty slots as children, it's a head.
+			if _, ok := hasChildBlock[node.Ref.Root]; ok {
+				continue
 			}
 		} else {
 			if parentRoot != nil && node.ParentRoot != *parentRoot {
